@@ -61,6 +61,7 @@ func cmdCorr(args []string) {
 	shards := fs.Int("shards", 8, "")
 	out := fs.String("out", "", "output directory")
 	lenient := fs.Bool("lenient", true, "")
+	proj := fs.String("proj", "PFull", "projection compared: PFull | PTotal | PBreaking | PCodes")
 	_ = fs.Parse(args)
 	if *out == "" {
 		die("corr: -out required")
@@ -95,7 +96,7 @@ func cmdCorr(args []string) {
 		sb.WriteString(header)
 		sb.WriteString("Definition cases : list case := [\n")
 		sb.WriteString(strings.Join(bufs[sh], ";\n"))
-		sb.WriteString("\n].\nDefinition M := Eval vm_compute in run_cases cases.\nPrint M.\n")
+		sb.WriteString("\n].\nDefinition M := Eval vm_compute in run_cases_p " + *proj + " cases.\nPrint M.\n")
 		if err := os.WriteFile(filepath.Join(*out, fmt.Sprintf("cases_%02d.v", sh)), []byte(sb.String()), 0o644); err != nil {
 			die("%v", err)
 		}
